@@ -572,6 +572,11 @@ def judge_design(c, b, drv, per_valid, cap):
                 # kin-openapi splits at "," and does not trim: not a verdict about the document (how such arrays reach the client is C03's
                 # recorded finding)
                 c.hist("validator-limitation", "array elements in a response header separated by \", \"")
+            elif not v.get("response_ok") and "response header" in (v.get("response_err") or "") and any(
+                    isinstance((cmd.get("script") or {}).get("result"), dict) and isinstance(cmd["script"]["result"].get(mp["attr"]), list) and len(cmd["script"]["result"][mp["attr"]]) != 1
+                    for r0 in (m.get("http") or {}).get("responses") or [] for mp in r0.get("headers") or []):
+                # an array in a response header with other than one element: how the generated server writes it is C03's recorded finding
+                c.hist("attributed", "array in a response header (C03: response/header/array-written-as-one-joined-value)")
             elif not v.get("response_ok"):
                 c.fail("c14/response:" + kin_class(v.get("response_err")), "%s.%s: the response (status %s) does not conform to its documented schema: %s" %
                        (s["name"], m["name"], w.get("status"), v.get("response_err", "")[:300]), input=inp, design=b.design, actual=(w.get("resp_body") or "")[:400])
